@@ -42,6 +42,18 @@ RandGrouping(g, gs, fm) == Grouping(g, <<Leaf(g \o "a", IF Coin(3) THEN <<P("def
                                        \o <<Cont(g \o "b", RandKids(g \o "b", 1, gs, fm))>>
                                        \o (IF Coin(3) THEN RandNode(g \o "c", 1, gs, fm) ELSE <<>>))
 RandFilter(u_) == Pick1(Range(Filters(0)))
+\* the way the enabled features reach the compiler: by name, through MultiFeatureCheckers with members that enable,
+\* disable and are silent (in both orders, with nil members), a checker of the caller, a capability directory, compile.Config
+RandSub(feats) == SetAsSeq({f \in feats : Coin(2)})
+RandSrc(feats) ==
+  LET k == RandomElement(1..7) IN
+  CASE k = 1 -> SrcNames(TRUE, RandSub(feats))
+    [] k = 2 -> SrcMulti(<<SrcNames(TRUE, RandSub(feats)), SrcNames(FALSE, RandSub(feats))>>)
+    [] k = 3 -> SrcMulti(<<SrcNames(FALSE, RandSub(feats)), SrcNil, SrcNames(TRUE, RandSub(feats))>>)
+    [] k = 4 -> SrcMulti(<<SrcNames(TRUE, RandSub(feats)), SrcTable(RandSub(feats), RandSub(feats))>>)
+    [] k = 5 -> SrcConfig(RandSub(feats), IF Coin(2) THEN SrcNil ELSE SrcNames(Coin(2), RandSub(feats)))
+    [] k = 6 -> SrcMulti(<<SrcDirs(RandSub(feats), <<>>), SrcNames(TRUE, RandSub(feats)), SrcNames(FALSE, RandSub(feats))>>)
+    [] OTHER -> SrcMulti(<<SrcTable(RandSub(feats), RandSub(feats)), SrcMulti(<<SrcNames(TRUE, RandSub(feats)), SrcNames(FALSE, RandSub(feats))>>)>>)
 \* container paths of module a that an augment or deviation can aim at
 RandCase(i, mode) ==
   LET FB == [fs |-> {<<"", "g">>, <<"", "h">>}, nodes |-> mode # "C12"]
@@ -65,9 +77,12 @@ RandCase(i, mode) ==
                      \o (IF Coin(2) THEN <<Augment(<<"a", "t1">>, (IF Coin(3) THEN <<IfF("", "fc")>> ELSE <<>>) \o (IF Coin(6) THEN <<P("status", "deprecated")>> ELSE <<>>) \o RandCond(0) \o <<Leaf("ca", RandCfg(0)), Cont("cb", <<Leaf("cc", <<>>)>>)>>)>> ELSE <<>>)
                      \o (IF Coin(2) THEN <<Augment(<<"a", "t2">>, <<Leaf("cd", IF Coin(8) THEN <<P("mandatory", "true")>> ELSE <<>>)>>)>> ELSE <<>>))
       modd == Module("d", <<"a">>, IF mode = "C12" THEN <<>> ELSE IF Coin(6) THEN <<Deviation(<<"a", "t1", "a", "w">>, <<Deviate("delete", <<Pick1(Range(RandW))>>)>>)>>
-                                   ELSE IF Coin(2) THEN <<Deviation(<<"a", "t1", "a", "w">>, <<Deviate(Pick1({"add", "add", "add", "replace", "delete"}), <<Pick1({P("default", "dv"), P("config", "false"), P("mandatory", "true"), P("must", "3 = 3"), P("units", "u")})>>)>>)>>
+                                   ELSE IF Coin(2) THEN <<Deviation(<<"a", "t1", "a", "w">>, <<Deviate(Pick1({"add", "add", "add", "replace", "delete"}), <<Pick1({P("default", "dv"), P("config", "false"), P("mandatory", "true"), P("must", "3 = 3"), P("units", "u")})>>
+                                                                                                                                         \* (now and then a second property, of the same kind or not)
+                                                                                                                                         \o (IF Coin(3) THEN <<Pick1({P("default", "dv"), P("default", "dw"), P("config", "false"), P("mandatory", "true"), P("units", "u"), P("units", "w")})>> ELSE <<>>))>>)>>
                                    ELSE IF Coin(2) THEN <<Deviation(<<"a", "t2">>, <<Deviate("not-supported", <<>>)>>)>> ELSE <<>>)
       feats == {<<"a", "f1">>, <<"a", "f2">>, <<"b", "g">>, <<"b", "h">>, <<"c", "fc">>}
-  IN [m |-> <<modb, subm, moda, modc, modd>>, e |-> {f \in feats : Coin(2)}, alt |-> "none",
+  \* (C20 keeps the plain source: its subject is the filter)
+  IN [m |-> <<modb, subm, moda, modc, modd>>, e |-> {}, alt |-> "none", src |-> IF mode = "C20" THEN SrcNames(TRUE, RandSub(feats)) ELSE RandSrc(feats),
       fl |-> IF mode = "C20" THEN <<RandFilter(0), RandFilter(0), RandFilter(0), RandFilter(0)>> ELSE <<>>]
 =============================================================================
